@@ -78,3 +78,22 @@ theorem has_erase_same (j : J) (k : String) : (j.erase k).has k = false := by
   simp [has, get_erase_same]
 
 end AV.J
+
+namespace AV.J
+mutual
+theorem beq_refl : ∀ (j : J), beq j j = true
+  | .null => by simp [beq]
+  | .bool b => by simp [beq]
+  | .num m e => by simp [beq]
+  | .str s => by simp [beq]
+  | .arr xs => by simp [beq, beqList_refl xs]
+  | .obj kvs => by simp [beq, beqKvs_refl kvs]
+theorem beqList_refl : ∀ (xs : List J), beqList xs xs = true
+  | [] => by simp [beqList]
+  | x :: xs => by simp [beqList, beq_refl x, beqList_refl xs]
+theorem beqKvs_refl : ∀ (kvs : List (String × J)), beqKvs kvs kvs = true
+  | [] => by simp [beqKvs]
+  | (k, x) :: kvs => by simp [beqKvs, beq_refl x, beqKvs_refl kvs]
+end
+theorem beq_self (j : J) : (j == j) = true := beq_refl j
+end AV.J
